@@ -26,6 +26,8 @@ use std::time::{Duration, Instant};
 mod corr;
 #[path = "../c01_rules.rs"]
 mod rules;
+#[path = "../c01_bodies.rs"]
+mod bodies;
 
 // ---------------------------------------------------------------------------------------------
 // panic capture with location (the hook installed by hv::cli() remembers it per thread)
@@ -1087,6 +1089,10 @@ pub fn run(a: &Args, corpus: &[Value]) {
             if let Err(m) = guarded(|| scaling_probe(&mut rep, a)) {
                 rep.fail("panic_unattributed", format!("panic in lint at {}: {m} (scaling probe)", last_panic_location()), v.clone());
             }
+        } else if v["kind"].as_str().map(|k| k.starts_with("body_")).unwrap_or(false) {
+            if let Err(m) = guarded(|| bodies::replay(&mut rep, v, a)) {
+                rep.fail("panic_unattributed", format!("panic at {}: {m} (rule-body model stream)", last_panic_location()), v.clone());
+            }
         } else if v["kind"].as_str().map(|k| k.starts_with("rule_body")).unwrap_or(false) {
             if let Err(m) = guarded(|| rules::replay(&mut rep, v)) {
                 rep.fail("panic_unattributed", format!("panic at {}: {m} (rule-body stream)", last_panic_location()), v.clone());
@@ -1160,6 +1166,14 @@ pub fn run(a: &Args, corpus: &[Value]) {
     if let Err(m) = guarded(|| rules::run(&mut rep, a)) {
         let loc = last_panic_location();
         rep.fail("panic_unattributed", format!("panic at {}: {} (rule-body stream set-up)", loc.strip_prefix("/repo/").unwrap_or(&loc), m.chars().take(300).collect::<String>()), json!({"kind": "rule_body_all"}));
+    }
+    // phase 4: the modelled rule bodies (ModalOf, proper nouns, RepeatedWords) against the extracted Model/C01Bodies.v
+    if let Err(m) = guarded(|| {
+        let c = corr::Corr::new(a.seed, 120);
+        bodies::run(&mut rep, a, &c)
+    }) {
+        let loc = last_panic_location();
+        rep.fail("panic_unattributed", format!("panic at {}: {} (rule-body model streams set-up)", loc.strip_prefix("/repo/").unwrap_or(&loc), m.chars().take(300).collect::<String>()), json!({"kind": "body_all"}));
     }
     if let Err(m) = guarded(|| scaling_probe(&mut rep, a)) {
         let loc = last_panic_location();
